@@ -183,8 +183,56 @@ where
     put(
         "disp",
         g(
-            || format!("{e}"),
-            |d| ((Some(&d) == text.as_ref()) as u8).to_string(),
+            || {
+                // Display is the text form whatever the sink did before: first into sinks that fail
+                // (no room, room for one byte, room for 64), then into strings
+                let mut all = Vec::new();
+                for cap in [0usize, 1, 64] {
+                    let mut sink = LimitedSink { left: cap, got: String::new() };
+                    let _ = std::fmt::Write::write_fmt(&mut sink, format_args!("{e}"));
+                    all.push(format!("{e}"));
+                }
+                all.push(e.to_string());
+                let mut big = LimitedSink { left: 4096, got: String::new() };
+                let _ = std::fmt::Write::write_fmt(&mut big, format_args!("{e}"));
+                all.push(big.got);
+                all
+            },
+            |all| (all.iter().all(|d| Some(d) == text.as_ref()) as u8).to_string(),
+        ),
+    );
+    // the encoding does not depend on the kind of sink: exactly-sized and larger fixed slices, a
+    // limited growable buffer, empty growable buffers, alloy's helper; `length()` agrees
+    put(
+        "encs",
+        g(
+            || {
+                use bytes::BufMut;
+                let mut reference = Vec::new();
+                e.encode(&mut reference);
+                let n = reference.len();
+                let mut ok = alloy_rlp::encode(e) == reference && e.length() == n;
+                for cap in [n, n + 1, n + 7, 300.max(n), 1024] {
+                    let mut buf = vec![0xa5u8; cap];
+                    let left = {
+                        let mut sl: &mut [u8] = &mut buf[..];
+                        e.encode(&mut sl);
+                        sl.len()
+                    };
+                    ok &= cap - left == n && buf[..n] == reference[..];
+                }
+                let mut bm = bytes::BytesMut::new();
+                e.encode(&mut bm);
+                ok &= bm[..] == reference[..];
+                let mut lim = Vec::new().limit(n);
+                e.encode(&mut lim);
+                ok &= lim.into_inner() == reference;
+                let mut pre = vec![1u8, 2, 3];
+                e.encode(&mut pre);
+                ok &= pre[3..] == reference[..];
+                ok
+            },
+            |ok| (ok as u8).to_string(),
         ),
     );
     put("dbg", g(|| format!("{e:?}").len(), |_| "ok".into()));
@@ -354,4 +402,29 @@ where
         ),
     );
     s
+}
+
+
+/// a `fmt::Write` sink with room for `left` bytes; writing more fails (a fixed-capacity string, a
+/// closed pipe)
+pub struct LimitedSink {
+    pub left: usize,
+    pub got: String,
+}
+
+impl std::fmt::Write for LimitedSink {
+    fn write_str(&mut self, s: &str) -> std::fmt::Result {
+        if s.len() > self.left {
+            let mut k = self.left;
+            while !s.is_char_boundary(k) {
+                k -= 1;
+            }
+            self.got.push_str(&s[..k]);
+            self.left = 0;
+            return Err(std::fmt::Error);
+        }
+        self.left -= s.len();
+        self.got.push_str(s);
+        Ok(())
+    }
 }
